@@ -28,6 +28,16 @@ def FieldVec.merge {FI FL : Type} [Add FI] [Add FL] : FieldVec FI FL → FieldVe
   | .leaf a, .leaf b => (mergeVector a b).map .leaf
   | _, _ => none
 
+/-- `Poplar1FieldVec::zero(is_leaf, len)` -/
+def FieldVec.zero {FI FL : Type} [Zero FI] [Zero FL] (isLeaf : Bool) (len : Nat) : FieldVec FI FL :=
+  if isLeaf then .leaf (List.replicate len 0) else .inner (List.replicate len 0)
+
+/-- the `aggregate(is_leaf, len, shares)` helper behind `Poplar1::unshard`: the shares are added
+    into a zero vector of the kind and length the aggregation parameter dictates -/
+def FieldVec.aggregate {FI FL : Type} [Add FI] [Add FL] [Zero FI] [Zero FL] (isLeaf : Bool) (len : Nat) :
+    List (FieldVec FI FL) → Option (FieldVec FI FL)
+  | shares => shares.foldl (fun acc s => acc.bind fun a => FieldVec.merge a s) (some (FieldVec.zero isLeaf len))
+
 /-- a schedule of merges: any tree whose leaves are output shares -/
 inductive MergeTree (α : Type) where
   | leaf (s : α)
